@@ -51,12 +51,16 @@ func freshAttester(s *State, v int) string {
 }
 
 var adminTypes = []adminType{
-	{"UpdateOwner", "owner", func(s *State, f string, v int) sdk.Msg { return &ct.MsgUpdateOwner{From: f, NewOwner: Acct((v + 5) % NAccounts)} }},
+	{"UpdateOwner", "owner", func(s *State, f string, v int) sdk.Msg {
+		return &ct.MsgUpdateOwner{From: f, NewOwner: Acct((v + 5) % NAccounts)}
+	}},
 	{"AcceptOwner", "pending", func(s *State, f string, v int) sdk.Msg { return &ct.MsgAcceptOwner{From: f} }},
 	{"UpdateAttesterManager", "owner", func(s *State, f string, v int) sdk.Msg {
 		return &ct.MsgUpdateAttesterManager{From: f, NewAttesterManager: Acct((v + 5) % NAccounts)}
 	}},
-	{"UpdatePauser", "owner", func(s *State, f string, v int) sdk.Msg { return &ct.MsgUpdatePauser{From: f, NewPauser: Acct((v + 5) % NAccounts)} }},
+	{"UpdatePauser", "owner", func(s *State, f string, v int) sdk.Msg {
+		return &ct.MsgUpdatePauser{From: f, NewPauser: Acct((v + 5) % NAccounts)}
+	}},
 	{"UpdateTokenController", "owner", func(s *State, f string, v int) sdk.Msg {
 		return &ct.MsgUpdateTokenController{From: f, NewTokenController: Acct((v + 5) % NAccounts)}
 	}},
@@ -79,8 +83,12 @@ var adminTypes = []adminType{
 		}
 		return &ct.MsgRemoveRemoteTokenMessenger{From: f, DomainId: d}
 	}},
-	{"EnableAttester", "am", func(s *State, f string, v int) sdk.Msg { return &ct.MsgEnableAttester{From: f, Attester: freshAttester(s, v)} }},
-	{"DisableAttester", "am", func(s *State, f string, v int) sdk.Msg { return &ct.MsgDisableAttester{From: f, Attester: firstAttester(s)} }},
+	{"EnableAttester", "am", func(s *State, f string, v int) sdk.Msg {
+		return &ct.MsgEnableAttester{From: f, Attester: freshAttester(s, v)}
+	}},
+	{"DisableAttester", "am", func(s *State, f string, v int) sdk.Msg {
+		return &ct.MsgDisableAttester{From: f, Attester: firstAttester(s)}
+	}},
 	{"UpdateSignatureThreshold", "am", func(s *State, f string, v int) sdk.Msg {
 		t := s.Threshold + 1
 		if int(t) > len(s.Attesters) {
@@ -266,11 +274,15 @@ func runC10(rc *RunCtx) {
 			case 0:
 				old = e.M.Owner
 				upd = []sdk.Msg{&ct.MsgUpdateOwner{From: old, NewOwner: nw}, &ct.MsgAcceptOwner{From: nw}}
-				probe = func(from string) sdk.Msg { return &ct.MsgUpdateMaxMessageBodySize{From: from, MessageSize: uint64(8000 + rot)} }
+				probe = func(from string) sdk.Msg {
+					return &ct.MsgUpdateMaxMessageBodySize{From: from, MessageSize: uint64(8000 + rot)}
+				}
 			case 1:
 				old = e.M.AM
 				upd = []sdk.Msg{&ct.MsgUpdateAttesterManager{From: e.M.Owner, NewAttesterManager: nw}}
-				probe = func(from string) sdk.Msg { return &ct.MsgUpdateSignatureThreshold{From: from, Amount: uint32(1 + rot%3)} }
+				probe = func(from string) sdk.Msg {
+					return &ct.MsgUpdateSignatureThreshold{From: from, Amount: uint32(1 + rot%3)}
+				}
 			case 2:
 				old = e.M.Pauser
 				upd = []sdk.Msg{&ct.MsgUpdatePauser{From: e.M.Owner, NewPauser: nw}}
@@ -451,7 +463,9 @@ type roleState struct {
 	owner, pending, am, pauser, tc int // account indices; pending -1 = none
 }
 
-func (s roleState) key() string { return fmt.Sprintf("%d/%d/%d/%d/%d", s.owner, s.pending, s.am, s.pauser, s.tc) }
+func (s roleState) key() string {
+	return fmt.Sprintf("%d/%d/%d/%d/%d", s.owner, s.pending, s.am, s.pauser, s.tc)
+}
 
 func roleStateOf(m *State) roleState {
 	p := -1
